@@ -591,8 +591,8 @@ Definition random_prog (c : cfg) : prog :=
        more einsum operand)
      cp_lstsq_grad (cp_tensor.py): diff = tensor - cp_to_tensor(cp); diff = diff*mask; grad = -unfolding_dot_khatri_rao(diff, cp, i);
        loss = 0.5 * T.sum(diff**2); returned as CPTensor((None, grad)), loss
-   cast = false: the code as it is (mask used as passed in); cast = true: the candidate repair
-   `mask = T.tensor(mask, **T.context(factors[0]))` (build/fix_candidates/C18_mask_multiplier.diff). *)
+   cast = true: the code since the repair ba7a532 (`mask = T.tensor(mask, **T.context(factors[0]))` before any use); cast = false: the code
+   before it (mask used as passed in).  The harness selects the variant from the source of the tree it checks. *)
 Definition mask_mul_prog (cast masked alt : bool) : prog :=
   let kr := Op (Op F_ W_) F_ in
   let diff0 := Op In_ kr in
@@ -639,8 +639,8 @@ Definition skeleton_v (mc : bool) (c : cfg) : prog :=
   | FFlipSign => mkprog [(vT, In_)] [] [("weights", RealOf T_); ("factors", Op T_ (ctx_of T_))]  (* weights = abs(weights) *)
   | FCmtf => cmtf_prog c
   | FTrAlsSampled => tr_als_sampled_prog c
-  | FMaskMul => mask_mul_prog false (c_mask c) (c_alt c)       (* the code as it is *)
-  | FMaskMulCast => mask_mul_prog true (c_mask c) (c_alt c)    (* candidate repair, not (yet) the code *)
+  | FMaskMul => mask_mul_prog false (c_mask c) (c_alt c)       (* the code before ba7a532 *)
+  | FMaskMulCast => mask_mul_prog true (c_mask c) (c_alt c)    (* the code since ba7a532 *)
   | _ => pure_prog c
   end.
 (* the variant of the code the correspondence is run against: since the repair 45ef7df the four masked entry points
